@@ -57,7 +57,7 @@ def run(cx):
     c0 = cx.fn('C16.G1', U + '::{closure@all#0}')
     if c0:
         t = cx.true_returns(c0)
-        ok = len(t) == 1 and bool(re.search(r'^slice::contains\(\^try\(Message::from_vec\(SerialMessage::bytes\(.*\)\)\)@Continue\.0(\.\w+)*\.queries,arg2\)$', t[0].term))
+        ok = len(t) == 1 and bool(re.search(r'^slice::contains\(try\(Message::from_vec\(SerialMessage::bytes\(.*\^\^arg1\.request.*\)\)\)@Continue\.0(\.\w+)*\.queries,arg2\)$', t[0].term))
         cx.check('C16.G1', ok, c0.path, 'ret', 'question-membership-is-full-Query-equality', '; '.join(s.term[:200] for s in t), t[0].loc if t else '')
     c1 = cx.fn('C16.G1', U + '::{closure@all#1}::{closure@any#0}')
     if c1:
@@ -70,12 +70,12 @@ def run(cx):
     if sm:
         ins = cx.calls(sm, r'HashMap<K, V, S, A>::insert$|HashMap::insert$')
         ins = [s for s in ins if 'active_requests' in s.term]
-        SEND = r'^ok\(<BufDnsStreamHandle as DnsStreamHandle>::send\(arg1\.stream_handle,SerialMessage::new\(Message::to_vec\(var\(request\)\)@Ok\.0,'
+        SEND = r'^ok\(<BufDnsStreamHandle as DnsStreamHandle>::send\(arg1\.stream_handle,SerialMessage::new\(Message::to_vec\(var\(\w+\)\)@Ok\.0,'
         cx.guard('C16.G2', ins, {'below-capacity': r'^lt\(HashMap::len\(arg1\.active_requests\),arg1\.max_active_requests\)$',
                                  'fresh-id-obtained': r'^ok\(DnsMultiplexer::next_random_query_id\(arg1\)\)$',
                                  'bytes-accepted-by-stream': SEND}, expect=1, fn=sm)
         for s in ins:
-            ok = bool(re.search(r'^HashMap::insert\(arg1\.active_requests,ActiveRequest::request_id\(ActiveRequest::new\(.*?,var\(request\)(\.metadata)?\.id,', s.term))
+            ok = bool(re.search(r'^HashMap::insert\(arg1\.active_requests,ActiveRequest::request_id\(ActiveRequest::new\(.*?,var\(\w+\)(\.metadata)?\.id,', s.term))
             cx.check('C16.G2', ok, sm.path, s.key(), 'key-is-the-request-id', s.term[:200], s.loc)
         ids = cx.assigns(sm, r'^DnsMultiplexer::next_random_query_id\(arg1\)@Ok\.0$', place=r'\.id$')
         cx.check('C16.G2', len(ids) == 1, sm.path, 'store', 'request-id-set-from-fresh-id', str(len(ids)))
